@@ -264,7 +264,9 @@ func dischargeAll(obls []*Obligation, covers []*Obligation, cfg SolverCfg) {
 			again = append(again, o)
 		}
 	}
-	if len(again) > 0 && len(again) <= 60 {
+	// VERIF_NO_RETRY: the self-test's must-fail runs do not need the second chance (any undischarged obligation
+	// already counts as "caught"); it is never set for the registered checks
+	if len(again) > 0 && len(again) <= 60 && os.Getenv("VERIF_NO_RETRY") == "" {
 		failMu.Lock()
 		failCount = map[string]int{}
 		failMu.Unlock()
